@@ -116,6 +116,12 @@ def gen_queries(rng, scale, with_cultures):
     pats = ["D", "d", "MMMM d", "dddd", "ddd MMM", "uuuu-MM-dd"]
     for j, cn in enumerate(cults):
         Q.append(["fmt", "LocalDate", pats[j % len(pats)], cn, rng.randint(-20000, 30000)]); slot.append(("fmt", j % 16))
+    if with_cultures:
+        # > 500 distinct pattern texts through one culture's least-recently-added pattern cache, then revisit the first ones
+        for j in range(520):
+            Q.append(["fmt", "LocalTime", f"HH:mm'#{j}'", "", (j * 7919) % 86400 * NS]); slot.append(("pattern-cache", j % 16))
+        for j in range(6):
+            Q.append(["fmt", "LocalTime", f"HH:mm'#{j}'", "", 3600 * NS + j]); slot.append(("pattern-cache-revisit", j))
     for cn in cults[:6]:
         Q.append(["fmt", "LocalDate", "dddd, MMMM d", cn, 19000]); slot.append(("fmt-revisit", cn))
         Q.append(["fmt", "LocalTime", "T", cn, 13 * 3600 * NS + 5 * NS]); slot.append(("fmt-revisit", cn))
